@@ -20,7 +20,7 @@ class C02(GProp):
              'tephra-combinator/src/bracket.rs', 'tephra/src/lexer.rs', 'tephra-error/src/error/lexer.rs']
     rule = ('seeded random grammars whose repetition bodies are non-nullable: delimited lists (all four entry points, bounds, abort '
             'sets) with malformed items/last items/missing separators, stabilize around recovering and non-recovering parsers, '
-            'every recovery strategy incl. recovery point = current token and none installed, repetition and bracket families (bracket scans with abort tokens before, inside and after the brackets), '
+            'every recovery strategy incl. recovery point = current token and none installed, a recover state carried into stabilize from an earlier recovery, repetition and bracket families (bracket scans with abort tokens before, inside and after the brackets), '
             'on random texts, sink on/off; each case runs in a supervised process with a per-case wall-clock limit and a 4 GiB '
             'address-space cap; a case that does not return is the failing observation and must coincide with fuel exhaustion of '
             'the model; non-trivial = grammar containing list/stabilize/recover on a text where some item fails; distinct by case')
@@ -61,6 +61,16 @@ class C02(GProp):
                 g = [r.choice(['bracket', 'bracketdef', 'bracketidx', 'bracketdefidx']), ['LK', 'LP'], inner, ['RK', 'RP'],
                      r.choice([['Semi'], ['Semi', 'Comma'], ['C']])]
                 t = spangen.random_text(r, ['a', 'b', 'c', 'comma', 'semi', 'semi', 'sp', 'lk', 'lk', 'rk', 'rk', 'lp', 'rp'], 10)
+            if i % 9 == 7:
+                # a recover state carried INTO stabilize from an earlier recovery of the same parse: the stabilized parser fails,
+                # the recovery point is ahead of the cursor, and the retry fails again at the recovery point
+                rs = r.choice([['before', 'Semi'], ['before', 'Semi'], ['beforeany', 'Semi', 'Comma'], ['after', 'Semi']])
+                first = [r.choice(['recover', 'recoverdef']), rs, ['one', 'A']]
+                if r.chance(2, 3): first = ['left', first, ['one', 'Semi']]
+                st = ['stabilize', r.choice([['one', 'B'], ['seq', 'A', 'B'], ['both', ['one', 'B'], ['one', 'B']]])]
+                tail = r.choice([st, st, ['both', st, ['maybe', ['one', 'Semi']]], gen_list(r)])
+                g = ['both', first, tail]
+                t = spangen.random_text(r, ['a', 'a', 'b', 'semi', 'semi', 'sp', 'comma'], 9)
             n += 1
             out.append(parsegen.parse_case('c%d' % n, t, g, sink=r.below(2)))
         return out
